@@ -273,10 +273,17 @@ fn do_resolve<Fd: AsFd, P: AsRef<Path>>(
                                 source: err,
                             })?;
                     }
+                    // ".." at the root stays at the root. Walk into "." of the
+                    // root (rather than handing out our dup of the root handle)
+                    // so that the handle we return is a fresh O_PATH file
+                    // description like the one openat2(2) gives -- the caller's
+                    // root was most likely opened with O_DIRECTORY, which would
+                    // otherwise show up in F_GETFL of the result.
                     current = Rc::clone(&root);
-                    continue;
+                    ".".into()
+                } else {
+                    part
                 }
-                part
             }
             _ => {
                 // This part might be a symlink, but we clean that up later.
